@@ -116,10 +116,11 @@ EXCLUDE_KNOWN = [True]
 
 
 def _dml_coalesce(t) -> bool:
-    """Witness class of known finding F19: somewhere in the query `x ?? y` with a DML statement on both sides."""
+    """Witness class of known finding F19: the query contains `x ?? y` (for object-typed operands whose
+    static types differ - two DML statements, or a view and a type intersection - the result type is a
+    freshly derived object type)."""
     if isinstance(t, tuple):
-        if t and t[0] == 'coalesce' and len(t) == 3 and all(
-                isinstance(x, tuple) and x and x[0] in ('insert', 'update', 'delete') for x in t[1:]):
+        if t and t[0] == 'coalesce' and len(t) == 3:
             return True
         return any(_dml_coalesce(x) for x in t[1:])
     if isinstance(t, list):
